@@ -5,8 +5,10 @@ B1  TLC explores MC_RoadmLaw (RoadmLaw.tla): node policy of each kind written in
     above target mixed per channel, offsets, path loss per frequency range (per channel), an egress degree set to
     exactly 0 dBm, impairment profiles of the crossed path type listed out of id order / named by the element, the
     network designed or exported and loaded again, and a SECOND crossing of the same ROADM by other baud rates / slot
-    widths on the same frequencies (no memory); clauses SinglePolicy, InvalidRejected, NeverAmplifies(+Step),
-    EqualisedToTarget, BelowTargetLossOnly, TargetIsDegreeElseNode, LevelByKind as invariants.
+    widths on the same frequencies (no memory) - a single-rate spectrum: every carrier at the design's reference baud rate,
+    in slots wider than / equal to / twice the reference spacing (targets stay per carrier); clauses SinglePolicy,
+    InvalidRejected, NeverAmplifies(+Step), EqualisedToTarget, BelowTargetLossOnly, TargetIsDegreeElseNode, LevelByKind,
+    SecondCrossingOnItsOwn, SecondCrossingPerCarrier as invariants.
 B2  every case TLC emits (configuration + per-channel inputs + the spec's expected outputs) is executed on a real Roadm of
     a small designed A-B-C line built from equipment + topology JSON, and compared per channel (+/-3 udB); every
     (library, element) combination of node-level policies is loaded for real and must be accepted with the policy the
@@ -149,8 +151,10 @@ def build(lib, elt, node_v, deg=None, crossing='express', profiles=None, explici
     return net, next(n for n in net.nodes() if n.uid == 'roadm B')
 
 
-BAUD2 = [64e9, 32e9, 64e9]          # second crossing: other transceiver modes on the same three frequencies
-SLOT2 = [75e9, 50e9, 75e9]
+# second crossing, same three frequencies: a single-rate spectrum (every carrier at the baud rate of the design reference,
+# SI baud_rate) on a flexible grid - slots wider than / equal to / twice the reference spacing
+BAUD2 = [32e9, 32e9, 32e9]
+SLOT2 = [75e9, 50e9, 100e9]
 
 
 def spectral_info(ch, second=False):
